@@ -11,8 +11,8 @@ the shipped DEX files.  The REAL `Graph.compute_rpo()` is run on a REAL Graph an
       back edge of SOME depth-first search only if its target is an ancestor-or-self of its source, which needs a path
       v ->* u.  On DAGs (c) is exactly 'topological order'.
 
-Deliberately NOT 'equal to my DFS': any valid traversal order passes.  `Graph.rpo` (the list) is not constrained by the
-statement; its agreement with `num` is counted in the evidence, not judged.
+Deliberately NOT 'equal to my DFS': any valid traversal order passes.  `Graph.rpo` (the list form of the numbering,
+position + 1) is held to the same three clauses; that it lists the nodes in exactly `num` order is only counted.
 """
 from mc.core import Acc
 from gen import graphs as G
@@ -28,7 +28,8 @@ RULE = ("all rooted digraphs on <=4 (thorough 5) labelled nodes by edge-set bit 
 ASSUMPTIONS = ["'non-back edge' is read as: an edge whose target cannot reach its source (necessary condition for being a "
                "back edge of any DFS); edges inside cycles are not constrained",
                "rooted graphs only (the statement); DEX CFGs with nodes unreachable from the entry are counted and skipped",
-               "Graph.rpo list order is not judged, only counted"]
+               "Graph.rpo is read as the numbering 'position + 1' and held to the same three clauses; equality of the two "
+               "numberings is counted, not judged"]
 MANIFEST = {
     "engine": "E2-structures",
     "technique": "exhaustive enumeration of small rooted digraphs against the semantic definition of a reverse post-order",
@@ -79,11 +80,28 @@ def judge(g, nodes, rows, reach, entry=0):
     except Exception as e:      # noqa
         return "compute_rpo raised %s: %s" % (type(e).__name__, e), None
     num = [nd.num for nd in nodes]
+    bad = numbering_errors("node.num", num, n, rows, reach, entry)
+    # Graph.rpo is the same numbering in list form (position + 1); it is held to the same three clauses, no more
+    try:
+        where = {id(nd): i + 1 for i, nd in enumerate(g.rpo)}
+        lpos = [where.get(id(nd), 0) for nd in nodes]
+        if len(g.rpo) != n:
+            bad.append("Graph.rpo has %d entries for %d nodes" % (len(g.rpo), n))
+        else:
+            bad += numbering_errors("Graph.rpo position", lpos, n, rows, reach, entry)
+    except Exception as e:      # noqa
+        bad.append("Graph.rpo unusable: %s" % e)
+    if bad:
+        return "; ".join(bad[:6]), num
+    return None, num
+
+
+def numbering_errors(what, num, n, rows, reach, entry):
     bad = []
     if num[entry] != 1:
-        bad.append("entry has number %r, not 1" % (num[entry],))
+        bad.append("%s: entry has number %r, not 1" % (what, num[entry]))
     if sorted(num, key=repr) != sorted(range(1, n + 1), key=repr):
-        bad.append("numbers %r are not a permutation of 1..%d" % (num, n))
+        bad.append("%s: numbers %r are not a permutation of 1..%d" % (what, num, n))
     else:
         for u in range(n):
             r = rows[u]
@@ -92,11 +110,9 @@ def judge(g, nodes, rows, reach, entry=0):
                 v = low.bit_length() - 1
                 r ^= low
                 if num[u] >= num[v] and u != v and not (reach(v) >> u) & 1:
-                    bad.append("edge %d->%d is numbered %d->%d but %d cannot reach %d (not a back edge of any DFS)"
-                               % (u, v, num[u], num[v], v, u))
-    if bad:
-        return "; ".join(bad[:6]), num
-    return None, num
+                    bad.append("%s: edge %d->%d is numbered %d->%d but %d cannot reach %d (not a back edge of any DFS)"
+                               % (what, u, v, num[u], num[v], v, u))
+    return bad
 
 
 def rpo_list_agrees(g, nodes):
@@ -262,14 +278,6 @@ def finalize(ctx, acc):
             acc.harness_error("vacuity: counter %s is zero" % name)
     # the oracle must be able to say no: a deliberately wrong numbering of a 3-node chain has to be rejected
     rows = G.rows_of_edges(3, [(0, 1), (1, 2)])
-
-    class _N:
-        pass
-
-    class _FakeGraph:
-        def compute_rpo(self):
-            for nd, k in zip(nds, (1, 3, 2)):
-                nd.num = k
-    nds = [_N(), _N(), _N()]
-    if judge(_FakeGraph(), nds, rows, G.closure(3, rows).__getitem__)[0] is None:
-        acc.harness_error("oracle self-test: a non-topological numbering of a chain was accepted")
+    reach = G.closure(3, rows).__getitem__
+    if not numbering_errors("self-test", [1, 3, 2], 3, rows, reach, 0) or numbering_errors("self-test", [1, 2, 3], 3, rows, reach, 0):
+        acc.harness_error("oracle self-test: numbering [1,3,2] of the chain 0->1->2 must be rejected and [1,2,3] accepted")
